@@ -45,6 +45,7 @@ def coverage(prop, executed, rejected, tier):
         "op_histogram": {k[3:]: int(v) for k, v in sorted(total.items()) if k.startswith("op:")},
         "outcomes": {k[8:]: int(v) for k, v in sorted(total.items()) if k.startswith("outcome:")},
         "dead_end_kinds": {k[8:]: int(v) for k, v in sorted(total.items()) if k.startswith("deadend:")},
+        "histories_with_debug_logging": int(total.get("env:debug-logging", 0)),
         "faults_armed_fired": {k: int(v) for k, v in sorted(total.items()) if k.startswith("fault:")},
         "probes": {k[6:]: int(v) for k, v in sorted(total.items()) if k.startswith("probe:")},
         "modes": {k[5:]: int(v) for k, v in sorted(total.items()) if k.startswith("mode:")},
